@@ -46,6 +46,12 @@
 (declare-fun deepv_Bool (Bool) Deep)
 (declare-fun deepv_Int (Int) Deep)
 (define-fun bcDer ((ca Bool) (pathLen Int)) Bytes (der (deepS_S_cert_BasicConstraints (deepv_Bool ca) (deepv_Int pathLen))))
+; RFC 5280 4.2.1.9: BasicConstraints ::= SEQUENCE { cA BOOLEAN DEFAULT FALSE, pathLenConstraint INTEGER (0..MAX) OPTIONAL }
+(define-fun bcSpec ((ca Bool) (hasLen Bool) (n Int)) Bytes
+  (tlv 0 16 true (bcat (ite ca (tlv 0 1 false (bunit #xff)) bempty) (ite hasLen (der (deepv_Int n)) bempty))))
+; encoding/asn1 on struct{IsCa bool "optional"; Pathlen int "optional"}: a field that holds its zero value is left out
+(assert (forall ((ca Bool) (n Int)) (! (= (der (deepS_S_cert_BasicConstraints (deepv_Bool ca) (deepv_Int n))) (bcSpec ca (not (= n 0)) n))
+  :pattern ((deepS_S_cert_BasicConstraints (deepv_Bool ca) (deepv_Int n))))))
 ; extended key usage purposes (RFC 5280 4.2.1.12), index = cert.ExtKeyUsage
 (define-fun ekuBase () OidV (osnoc (osnoc (osnoc (osnoc (oid4e 1 3 6 1) 5) 5) 7) 3))
 (define-fun specEkuOid ((i Int)) OidV
